@@ -32,6 +32,35 @@ Definition outc_of (m : nat) (infos : list pinfo) : nat -> nat -> list (nat -> t
 Definition near (p t : Q) (x : scored nat) : bool :=
   match row_score nat p x with Some (Fin q) => qclose e9 q t | _ => false end.
 
+(* ---- TF sources: the tf values given to the scorer above are recomputed here by the EntryPoints model.
+   A record is the list of its TF-column values (string ids); D the linker's records; per column either a
+   registered table, a table computed from the data, or none. *)
+Definition vrec := list (option nat).
+Definition vval (k : nat) (r : vrec) : option nat := nth k r None.
+Definition oq_eqb (a b : option Q) : bool :=
+  match a, b with Some x, Some y => Qeq_bool x y | None, None => true | _, _ => false end.
+Inductive tfsrc := SrcRegistered (tbl : list (nat * Q)) | SrcComputed | SrcNoTable.
+Definition present_values (D : list vrec) (k : nat) : list nat :=
+  nodup Nat.eq_dec (flat_map (fun r => match vval k r with Some v => [v] | None => [] end) D).
+Definition computed_table (D : list vrec) (k : nat) : list (nat * Q) :=
+  flat_map (fun v => match tf_of_data vrec nat Nat.eqb vval D k (Some v) with Some q => [(v, q)] | None => [] end) (present_values D k).
+Definition table_of (D : list vrec) (src : list tfsrc) (k : nat) : option (list (nat * Q)) :=
+  match nth k src SrcNoTable with SrcRegistered t => Some t | SrcComputed => Some (computed_table D k) | SrcNoTable => None end.
+(* a linker record: (values, expected tf);  an ad-hoc record: (values, concat table cached, supplied tf per column, expected tf) *)
+Definition tf_t := (list vrec * list tfsrc * nat * list (vrec * list (option Q))
+                    * list (vrec * bool * list (option (option Q)) * list (option Q)))%type.
+Definition run_tf (c : tf_t) : bool :=
+  match c with (D, src, ncol, own, adhoc) =>
+    forallb (fun x => forallb (fun k => oq_eqb (data_tf vrec nat Nat.eqb vval D (table_of D src) (fst x) k) (nth k (snd x) None)) (seq 0 ncol)) own &&
+    forallb (fun x => match x with (r, cc, sup, expd) =>
+      let route := fun k => route_of (route_priority (match nth k sup None with Some _ => true | None => false end)
+                                                     (match table_of D src k with Some _ => true | None => false end) cc)
+                                     (match table_of D src k with Some t => t | None => [] end) in
+      let supplied := fun (_ : vrec) k => match nth k sup None with Some v => v | None => None end in
+      forallb (fun k => oq_eqb (adhoc_tf vrec nat Nat.eqb vval D route supplied r k) (nth k expd None)) (seq 0 ncol)
+    end) adhoc
+  end.
+
 (* find_matches: (prior, cmps, pow table, t = 2^threshold, exact, n existing, m new, rule matrices,
    pair infos (n x m), tf of existing, tf of new, implementation pairs) *)
 Definition fm_t := (Q * list (list level) * list (Q * Q * Q) * Q * bool * nat * nat * list (list nat) * list pinfo
@@ -304,6 +333,7 @@ def run_entries(case, rng, api_hook=None):
     for r in pred:
         predmap[frozenset((out_ident(case, r, "l"), out_ident(case, r, "r")))] = r
     data_tf = {c: {ident(r): tf_for_value(spec, rows, lookups, c, r[c]) for r in rows} for c in spec["tf_cols"]}
+    tfmeta = []           # per entry: how each side gets its TF: ("data",) | ("adhoc", concat_with_tf cached, supplied dict or None)
     entries = []          # (entry name, left row, right row, tfv dict col -> (l, r), engine record, predict key or None)
 
     def tfv_rows(rl, rr, left=None, right=None):
@@ -317,6 +347,7 @@ def run_entries(case, rng, api_hook=None):
     for r in pred:
         il, ir = out_ident(case, r, "l"), out_ident(case, r, "r")
         entries.append(("predict", byid[il], byid[ir], {c: (data_tf[c][il], data_tf[c][ir]) for c in spec["tf_cols"]}, r, None))
+        tfmeta.append((("data",), ("data",)))
 
     ids = list(byid)
 
@@ -339,6 +370,7 @@ def run_entries(case, rng, api_hook=None):
                 rec = got[(ident(rl), ident(rr))]
                 key = frozenset((ident(rl), ident(rr))) if comparable and ident(rl) != ident(rr) else None
                 entries.append((name, rl, rr, tfv_rows(rl, rr, supL[a] if supL else None, supR[b] if supR else None), rec, key))
+                tfmeta.append((("adhoc", True, supL[a] if supL else None), ("adhoc", True, supR[b] if supR else None)))
 
     # ---- compare_two_records (warm linker: TF by registered table / select distinct) ----
     if api_hook:
@@ -373,6 +405,7 @@ def run_entries(case, rng, api_hook=None):
                    if (c in lookups or c in case.get("computed_tf", [])) else (None, None)) for c in spec["tf_cols"]}
         assert len(out) == 1
         entries.append(("compare_two_records:cold", rl, rr, tfv, out[0], None))
+        tfmeta.append((("adhoc", False, None), ("adhoc", False, None)))
 
     # ---- realtime compare_records: the same model as a dictionary, TF values supplied; first call
     #      generates the SQL (use_sql_from_cache=False or cache miss), later calls reuse the cached text ----
@@ -412,6 +445,7 @@ def run_entries(case, rng, api_hook=None):
         orig = new_full[newidx[ident(rr)]]["_copy_of"]
         key = frozenset((orig, ident(rl))) if orig is not None and orig != ident(rl) else None
         entries.append(("find_matches_to_new_records", rl, rr, tfv_rows(rl, rr), r, key))
+        tfmeta.append((("data",), ("adhoc", True, None)))
     fm = {"thr": thr, "rules": rules, "new": new, "new_source_dataset_column": sds_mode,
           "impl": [(exidx[out_ident(case, r, "l")], newidx[out_ident(case, r, "r")]) for r in fmout],
           "mats": rule_matrices(rules, rows, new),
@@ -442,6 +476,7 @@ def run_entries(case, rng, api_hook=None):
         il, ir = out_ident(case, r, "l"), out_ident(case, r, "r")
         entries.append(("score_missing_cluster_edges", byid[il], byid[ir], {c: (data_tf[c][il], data_tf[c][ir]) for c in spec["tf_cols"]}, r,
                         frozenset((il, ir))))
+        tfmeta.append((("data",), ("data",)))
     names = sorted({r["source_dataset"] for r in rows})
     me = {"thr": me_thr, "clusters": [cl[ident(r)] for r in rows], "ranks": composite_ranks(case),
           "dss": [names.index(r["source_dataset"]) for r in rows], "link_only": spec["link_type"] == "link_only",
@@ -455,7 +490,8 @@ def run_entries(case, rng, api_hook=None):
     ocs = X.outcomes_rows(case, lk, [(e[1], e[2]) for e in entries])
     only = {c: set(absent_lookup_values(case, c)) for c in lookups}
     n_planted = sum(1 for e in entries if e[0] != "predict" and any(e[k].get(c) in only[c] for k in (1, 2) for c in only))
-    return {"n_planted": n_planted, "entries": entries, "outcomes": ocs, "predmap": predmap, "fm": fm, "me": me, "linker": lk}
+    assert len(tfmeta) == len(entries)
+    return {"n_planted": n_planted, "tfmeta": tfmeta, "entries": entries, "outcomes": ocs, "predmap": predmap, "fm": fm, "me": me, "linker": lk}
 
 
 def scoring_term(case, res):
@@ -472,6 +508,53 @@ def scoring_term(case, res):
     term = (f"({coq_Q(Fr(spec['prior']))}, {G.cmps_term(spec)}, {X.powtbl_term(powtbl)}, (@None Q), (@None Q), false, "
             + coq_list(pterms, "ipair") + ")")
     return term, infos, powtbl
+
+
+def tf_term(case, res):
+    """inputs for run_tf: value ids per TF column, tables, and the tf values that were given to the scorer"""
+    spec = case["spec"]
+    cols = spec["tf_cols"]
+    ids = {c: {} for c in cols}
+
+    def vid(c, v):
+        if v is None:
+            return "None"
+        d = ids[c]
+        if v not in d:
+            d[v] = len(d)
+        return f"(Some {d[v]}%nat)"
+
+    def vrec(row):
+        return coq_list([vid(c, row.get(c)) for c in cols], "(option nat)")
+    D = coq_list([vrec(r) for r in case["rows"]], "vrec")
+    own, adhoc, seen = [], [], set()
+    for e, meta in zip(res["entries"], res["tfmeta"]):
+        for side, (row, m) in enumerate(((e[1], meta[0]), (e[2], meta[1]))):
+            expd = [e[3][c][side] for c in cols]
+            et = coq_list([X.oq(v) for v in expd], "(option Q)")
+            if m[0] == "data":
+                t = f"({vrec(row)}, {et})"
+                if t not in seen:
+                    seen.add(t)
+                    own.append(t)
+            else:
+                sup = m[2] or {}
+                st = coq_list([("(Some " + X.oq(sup[c]) + ")") if c in sup else "(@None (option Q))" for c in cols], "(option (option Q))")
+                t = f"({vrec(row)}, {coq_bool(m[1])}, {st}, {et})"
+                if t not in seen:
+                    seen.add(t)
+                    adhoc.append(t)
+    src = []
+    for c in cols:                       # after all values have ids
+        if c in case["lookups"]:
+            rows = [f"({ids[c].setdefault(v, len(ids[c]))}%nat, {coq_Q(Fr(q))})" for v, q in case["lookups"][c].items()]
+            src.append("(SrcRegistered " + coq_list(rows, "(nat * Q)") + ")")
+        elif c in case.get("computed_tf", []):
+            src.append("SrcComputed")
+        else:
+            src.append("SrcNoTable")
+    return (f"({D}, {coq_list(src, 'tfsrc')}, {len(cols)}%nat, {coq_list(own, '(vrec * list (option Q))')}, "
+            + coq_list(adhoc, "(vrec * bool * list (option (option Q)) * list (option Q))") + ")")
 
 
 def _infos_term(outcs):
